@@ -194,10 +194,12 @@ func (c OCall) coq() string {
 }
 
 type optRun struct {
-	isStack bool
-	s       stk.Stack
-	c       stk.Condition
-	maps    []stk.Auxiliary // maps[k-1] is the k-th map of the harness
+	kindWord  string // AND OR NOT LIST BASIC
+	invariant string
+	isStack   bool
+	s         stk.Stack
+	c         stk.Condition
+	maps      []stk.Auxiliary // maps[k-1] is the k-th map of the harness
 }
 
 func (r *optRun) auxByPtr(isnil bool, p uintptr, n int) (string, any) {
@@ -353,6 +355,19 @@ func (r *optRun) observe() (string, map[string]any) {
 		gid, gcat, gdelim, glog, gaux = s.ID(), s.Category(), s.Delimiter(), s.LogLevels(), s.Auxiliary()
 		_, idxneg = s.Index(-1)
 		_, idxfwd = s.Index(s.Len() + 1)
+		// Kind(): the symbol exactly as stored when there is one, the kind
+		// word otherwise (lower case under case folding) - no option may
+		// alter the symbol
+		wantKind := r.kindWord
+		if geti("opt")&2 != 0 {
+			wantKind = strings.ToLower(wantKind)
+		}
+		if sym := gets("sym"); sym != "" {
+			wantKind = sym
+		}
+		if got := s.Kind(); got != wantKind && r.invariant == "" {
+			r.invariant = fmt.Sprintf("Kind() = %q, want %q (stored symbol %q, option word %d)", got, wantKind, gets("sym"), geti("opt"))
+		}
 		slots, _ := d["slots"].([]any)
 		for _, v := range slots {
 			if n, ok := v.(int); ok {
@@ -440,6 +455,7 @@ func runOptions(raw json.RawMessage) (*Result, error) {
 			return nil, fmt.Errorf("unknown kind %q", in.Kind)
 		}
 		r.s = newStack(in.Kind, -1)
+		r.kindWord = in.Kind
 		for _, n := range in.Content {
 			r.s.Push(n)
 			contentT = append(contentT, coqZ(n))
@@ -506,13 +522,13 @@ func runOptions(raw json.RawMessage) (*Result, error) {
 	for t := range tags {
 		tl = append(tl, t)
 	}
-	return &Result{Coq: coq, Observed: recs, Tags: tl, Nontrivial: ncalls >= 3 && len(targets) >= 2}, nil
+	return &Result{Coq: coq, Observed: recs, Tags: tl, Nontrivial: ncalls >= 3 && len(targets) >= 2, Invariant: r.invariant}, nil
 }
 
 // ---------------------------------------------------------------------------
 // generators
 
-var optStrings = []string{"", "a", "b", ",", ";", "|", "é", "«", "»", "(", ")", "[", "]", "\"", "'", "<<", ">>", "x y", "∧", "&&", "ab", "Zz9"}
+var optStrings = []string{"", "a", "b", "Xor", "nand", "ALSO", ",", ";", "|", "é", "«", "»", "(", ")", "[", "]", "\"", "'", "<<", ">>", "x y", "∧", "&&", "ab", "Zz9"}
 var encapStrings = []string{"(", ")", "[", "]", "\"", "'", "<", ">", "«", "»", "<<", "<", "a", "ab", "", "`"}
 var levelNames = []string{"NONE", "CALLS", "POLICY", "STATE", "DEBUG", "ERROR", "TRACE", "USER1", "USER2", "USER3", "USER4",
 	"USER5", "USER6", "USER7", "USER8", "USER9", "USER10", "ALL"}
